@@ -34,12 +34,12 @@ def plan(tier, seed):
     out = []
     # every observer cell on small shapes
     for (h, w) in [(2, 2), (2, 3), (3, 3), (3, 4), (4, 4), (2, 5)]:
-        for rep in range(3 if tier == 'quick' else 12):
+        for rep in range(3 if tier == 'quick' else 24):
             out.append(('allobs', '%d,%d,%d' % (h, w, rep)))
-    n = 2400 if tier == 'quick' else 12000
+    n = 2400 if tier == 'quick' else 40000
     out += [('rand', i) for i in range(n)]
     # mid-size terrains (12..20 a side): rarer tree shapes (two-children deletions under a stale ancestor) need more active cells
-    out += [('mid', i) for i in range(1300 if tier == 'quick' else 6000)]
+    out += [('mid', i) for i in range(1300 if tier == 'quick' else 20000)]
     return out
 
 
